@@ -167,3 +167,31 @@ def inline_helpers(prog: Program, fi: FuncInfo, depth: int = 2) -> FuncInfo:
         for ch in ast.iter_child_nodes(parent):
             ch._parent = parent  # type: ignore[attr-defined]
     return dataclasses.replace(fi, node=fn)
+
+
+def expand_expr(prog: Program, module: str, expr: ast.AST, depth: int = 2) -> ast.AST:
+    """A copy of `expr` in which every call of a same-module function whose body is one `return <expression>` is replaced by
+    that expression with the arguments substituted (`_complexity(dimension) <= 1` -> `sum(abs(e) for e in dimension.exponents) <= 1`)."""
+    mi = prog.modules[module]
+
+    class X(ast.NodeTransformer):
+        def __init__(self, d: int) -> None:
+            self.d = d
+
+        def visit_Call(self, n: ast.Call) -> ast.AST:
+            self.generic_visit(n)
+            if self.d <= 0 or not isinstance(n.func, ast.Name) or n.keywords or any(isinstance(a, ast.Starred) for a in n.args):
+                return n
+            q = mi.functions.get(n.func.id)
+            h = prog.functions[q].node if q and q in prog.functions else None
+            if not isinstance(h, ast.FunctionDef) or h.decorator_list:
+                return n
+            body = [st for st in h.body if not (isinstance(st, ast.Expr) and isinstance(st.value, ast.Constant))]
+            hp = [a.arg for a in h.args.args]
+            if len(body) != 1 or not isinstance(body[0], ast.Return) or body[0].value is None or len(hp) != len(n.args) \
+                    or h.args.vararg or h.args.kwarg or h.args.kwonlyargs:
+                return n
+            m = dict(zip(hp, n.args))
+            inner = _Rename({k: v for k, v in m.items()}).visit(copy.deepcopy(body[0].value))
+            return X(self.d - 1).visit(inner)
+    return ast.fix_missing_locations(X(depth).visit(copy.deepcopy(expr)))
